@@ -58,6 +58,9 @@ class EvaluationTask(Enum):
     def __str__(self) -> str:
         return self.value
 
+    def __hash__(self) -> int:
+        return hash(self.value)
+
     def __eq__(self, other: Union[EvaluationTask, str]) -> bool:
         if isinstance(other, str):
             return self.value == other
